@@ -75,7 +75,7 @@ Print Assumptions xff_all_trusted_keeps_peer.
 
 (* non-vacuity: "/pub/x.inc" is denied, and stays denied as "/pub/%78.inc/extra" (path-info) *)
 Example c03_nonvacuous :
-  let cf := {| flags := 9560; lc := false; deny := [[46;105;110;99]]; excl := []; auth_prefix := []; blocks := [] |} in
+  let cf := {| flags := 9560; lc := false; allow := []; deny := [[46;105;110;99]]; excl := []; auth_prefix := []; blocks := [] |} in
   let fs := {| files := [[47;112;117;98;47;120;46;105;110;99]; [47;112;117;98;47;97]]; dirs := [[47;112;117;98]] |} in
   decide (fun _ => false) cf fs [47;112;117;98;47;37;55;56;46;105;110;99;47;101] [] [49] None = O403 /\
   decide (fun _ => false) cf fs [47;112;117;98;47;97;47;101] [] [49] None = O200 [47;112;117;98;47;97] [47;101].
